@@ -1,6 +1,8 @@
 import NunVerif.Model.Cluster
 import NunVerif.Proofs.AL
 import NunVerif.Props.C14
+import NunVerif.Props.C02
+import NunVerif.Props.C13
 /-
   C04 — live replication converges: every node ends equal to the primary.
 
@@ -40,5 +42,105 @@ in the same state: `process_request` has no hidden per-node input -/
 theorem C04_same_messages_same_state (n n' : Node) (sid : Sid) (msgs : List Bytes) (h : n' = n) :
     (msgs.foldl (fun acc m => (acc.exec sid m).1) n') = (msgs.foldl (fun acc m => (acc.exec sid m).1) n) := by
   rw [h]
+
+/-! ### what two replicas agree on -/
+
+/-- what a client can observe of an entry: value, version, removed or not (NOT whether it has been
+written to disk, nor the local operation id) -/
+def Entry.pub (e : Entry) : Bytes × Int × Bool := (e.value, e.version, e.state == .deleted)
+
+def Db.pubOf (db : Db) (k : Bytes) : Option (Bytes × Int × Bool) := (db.getValue k).map Entry.pub
+
+/-- two replicas hold the same observable data -/
+def Db.Agree (a b : Db) : Prop := ∀ k, a.pubOf k = b.pubOf k
+
+/-- the same write as it arrives on another node: same key, value, version and kind, its own operation id -/
+def Change.Same (c c' : Change) : Prop := c.key = c'.key ∧ c.value = c'.value ∧ c.version = c'.version ∧ c.resolve = c'.resolve
+
+theorem getValue_setValueVersion (db : Db) (k k' v : Bytes) (ver : Int) (st : Status) (va ka op : Nat) :
+    (db.setValueVersion k v ver st va ka op).getValue k' =
+      if k = k' then some { value := v, version := ver, opId := op, state := st, vaddr := va, kaddr := ka } else db.getValue k' := by
+  simp only [Db.getValue, Db.setValueVersion, AL.get?_put]
+
+theorem updState_not_deleted (s : Status) : (updState s == Status.deleted) = false := by
+  unfold updState; split <;> simp
+
+/-- **one write, two replicas**: if they agree before, they agree after — and answer alike — whatever
+their local persistence states and operation ids are -/
+theorem setValue_agree (a b : Db) (c c' : Change) (h : a.Agree b) (hc : c.Same c') :
+    (a.setValue c).1.Agree (b.setValue c').1 ∧
+    ((∃ k v, (a.setValue c).2.1 = .set k v) ↔ (∃ k v, (b.setValue c').2.1 = .set k v)) := by
+  obtain ⟨hk, hv, hver, hres⟩ := hc
+  have hkey := h c.key
+  unfold Db.pubOf at hkey
+  cases ha : a.getValue c.key with
+  | none =>
+    rw [ha] at hkey
+    have hb : b.getValue c'.key = none := by
+      rw [← hk]; cases hb : b.getValue c.key with
+      | none => rfl
+      | some e => rw [hb] at hkey; simp at hkey
+    rw [setValue_absent a c ha, setValue_absent b c' hb]
+    refine ⟨?_, by simp⟩
+    intro k
+    simp only [Db.pubOf, getValue_setValueVersion]
+    rw [← hk]
+    split
+    · simp [Entry.pub, hv, hver]
+    · exact h k
+  | some ea =>
+    rw [ha] at hkey
+    obtain ⟨eb, hb, hpub⟩ : ∃ eb, b.getValue c.key = some eb ∧ ea.pub = eb.pub := by
+      cases hb : b.getValue c.key with
+      | none => rw [hb] at hkey; simp at hkey
+      | some eb => rw [hb] at hkey; simp at hkey; exact ⟨eb, rfl, hkey⟩
+    have hb' : b.getValue c'.key = some eb := by rw [← hk]; exact hb
+    simp only [Entry.pub, Prod.mk.injEq] at hpub
+    obtain ⟨hpv, hpver, hpd⟩ := hpub
+    have hnv : c.nextVersion ea = c'.nextVersion eb := by
+      simp only [Change.nextVersion, Change.keepInConflict, Entry.inConflict, hver, hres, hpver]
+      try rfl
+    have hkc : c.keepInConflict = c'.keepInConflict := by simp [Change.keepInConflict, hver]
+    rw [setValue_on_entry a c ea ha, setValue_on_entry b c' eb hb']
+    rw [hnv, hpver, hkc]
+    split
+    · refine ⟨h, by simp⟩
+    · refine ⟨?_, by simp⟩
+      intro k
+      simp only [Db.pubOf, getValue_setValueVersion]
+      rw [← hk]
+      split
+      · simp [Entry.pub, hv, updState_not_deleted]
+      · exact h k
+
+/-- the same sequence of writes as it arrives on another node -/
+inductive SameSeq : List Change → List Change → Prop
+  | nil : SameSeq [] []
+  | cons {c c' : Change} {cs cs' : List Change} : c.Same c' → SameSeq cs cs' → SameSeq (c :: cs) (c' :: cs')
+
+/-- the same writes, in the same order, on two replicas that agree: they still agree at the end
+(the sequence is the primary's log delivered over a FIFO link; removes are NOT covered — see below) -/
+theorem C04_replicas_agree_on_writes (a b : Db) (cs cs' : List Change) (h : a.Agree b)
+    (hs : SameSeq cs cs') :
+    (cs.foldl (fun db c => (db.setValue c).1) a).Agree (cs'.foldl (fun db c => (db.setValue c).1) b) := by
+  induction hs generalizing a b with
+  | nil => exact h
+  | cons hc _ ih => exact ih _ _ (setValue_agree a b _ _ h hc).1
+
+/-- FINDING (witness): a remove is where agreement ends. Two replicas hold the same key with the same
+value and version, one has written it to disk (state ok), the other not yet (state new): after
+`remove; set` the first continues the version history, the second restarts at 0 -/
+theorem C04_finding_remove_depends_on_persistence :
+    let e (st : Status) : Entry := { value := b!"1", version := 0, opId := 1, state := st, vaddr := 0, kaddr := 0 }
+    let a : Db := { (Db.new b!"t" 1 .none) with map := [(b!"a", e .ok)] }
+    let b : Db := { (Db.new b!"t" 1 .none) with map := [(b!"a", e .new)] }
+    let c : Change := { key := b!"a", value := b!"2", version := -1, opId := 9, resolve := false }
+    a.Agree b ∧
+    (((a.removeValue b!"a").map fun r => (r.1.setValue c).1.pubOf b!"a") = some (some (b!"2", 2, false))) ∧
+    (((b.removeValue b!"a").map fun r => (r.1.setValue c).1.pubOf b!"a") = some (some (b!"2", 0, false))) := by
+  refine ⟨?_, by decide +kernel, by decide +kernel⟩
+  intro k
+  simp only [Db.pubOf, Db.getValue, AL.get?]
+  split <;> (try simp [Entry.pub]) <;> decide
 
 end Nun
